@@ -25,9 +25,12 @@ def CongRel {V : Type} (A : ArithSem V) : List Op → List Op → Prop
 `reduce()`.**  Semantic statements about `A.den`, discharged elsewhere.  (The corresponding facts for sums —
 congruence, a one-operand sum denotes its operand — follow from `ArithSem.add_law` and are proved below.) -/
 structure ContainerLaws {V : Type} (A : ArithSem V) (laws : RuleLaws A) : Prop where
-  /-- congruence of the block operators: replacing every block by one with the same structures and the same
-  denotation on its input space does not change the denotation (nor does the Python identity of the object) -/
-  cont_congr : ∀ u u' k td ops ops', k ≠ .add → ops ≠ [] → ContOK k td ops → CongRel A ops ops' →
+  /-- congruence of the block operators: replacing every (well-formed) block by a well-formed one with the same
+  structures and the same denotation on its input space does not change the denotation (nor does the Python
+  identity of the object) -/
+  cont_congr : ∀ u u' k td ops ops', k ≠ .add → ops ≠ [] →
+    WTList A.invertible laws.leafOK ops → WTList A.invertible laws.leafOK ops' →
+    ContOK k td ops → CongRel A ops ops' →
     ∀ x, A.mem (Op.inS (.cont u k td ops)) x → A.den (.cont u' k td ops') x = A.den (.cont u k td ops) x
   /-- `BlockDiagonalOperator.reduce`: a block diagonal of identities is the identity -/
   blockdiag_identities : ∀ u td ops, ops ≠ [] → td.numLeaves = ops.length →
@@ -58,7 +61,7 @@ theorem CongRel_structs (ops ops' : List Op) (h : CongRel A ops ops') :
 
 /-- a slot-wise congruent chain is typed alike and denotes the same map -/
 theorem CongRel_WT (ops ops' : List Op) (h : CongRel A ops ops') (s t : Struct)
-    (hwt : A.toOpSem.toSem.WT ops s t) :
+    (hok : ∀ o ∈ ops, StructOK o) (hwt : A.toOpSem.toSem.WT ops s t) :
     A.toOpSem.toSem.WT ops' s t ∧
     ∀ x, A.mem s x → A.toOpSem.toSem.app ops' x = A.toOpSem.toSem.app ops x := by
   induction ops generalizing ops' t with
@@ -73,13 +76,14 @@ theorem CongRel_WT (ops ops' : List Op) (h : CongRel A ops ops') (s t : Struct)
       simp only [CongRel] at h
       obtain ⟨⟨hi, ho, hd⟩, hrest⟩ := h
       obtain ⟨h1, h2⟩ := hwt
-      obtain ⟨hw, ha⟩ := ih os' hrest _ h2
+      have hok' : ∀ o' ∈ os, StructOK o' := fun o' ho' => hok o' (List.mem_cons_of_mem _ ho')
+      obtain ⟨hw, ha⟩ := ih os' hrest _ hok' h2
       refine ⟨⟨?_, ?_⟩, fun x hx => ?_⟩
       · simp only [OpSem.toSem_outS] at h1 ⊢; rw [ho]; exact h1
       · simp only [OpSem.toSem_inS] at hw ⊢; rw [hi]; exact hw
       · simp only [Sem.app, OpSem.toSem_den]
         rw [ha x hx]
-        exact hd _ (A.toOpSem.toSem.WT_mem _ _ _ h2 x hx)
+        exact hd _ (A.toOpSem.toSem.WT_mem _ _ _ hok' h2 x hx)
 
 /-- the operands of a sum are evaluated at the same point -/
 theorem CongRel_map (ops ops' : List Op) (h : CongRel A ops ops') (x : V)
@@ -208,8 +212,8 @@ theorem reduce_RedSound (extra : ContainerLaws A laws) : ∀ fuel, RedSound A la
           simp only [ha] at h
           obtain ⟨hrel, hws'⟩ := mapM_red A laws (reduce n) ih ops ops' hws hm
           have hwt := (Chain_iff_WT A.toOpSem ops hne).mp hch
-          obtain ⟨hwt', happ'⟩ := CongRel_WT A ops ops' hrel _ _ hwt
-          obtain ⟨hpr, hwr, har⟩ := A.toOpSem.algebraicReduction_sound_on laws.WT
+          obtain ⟨hwt', happ'⟩ := CongRel_WT A ops ops' hrel _ _ (structOK_of_forall_WTExpr hws) hwt
+          obtain ⟨hpr, hwr, har⟩ := A.toOpSem.algebraicReduction_sound_on laws.WT laws.WT_structOK
             laws.WT_mkIdentity laws.WT_mkHomothety (reduce n) (binaryRules_sound A laws (reduce n) ih)
             ops' res _ _ hws' hwt' ha
           have hden : ∀ x, A.mem (inSLast ops) x →
@@ -309,7 +313,8 @@ theorem reduce_RedSound (extra : ContainerLaws A laws) : ∀ fuel, RedSound A la
       · -- block operators
         have hcong : ∀ x, A.mem (Op.inS (.cont u k td ops)) x →
             A.den (.cont 0 k td ops') x = A.den (.cont u k td ops) x :=
-          extra.cont_congr u 0 k td ops ops' hk hne hok hrel
+          extra.cont_congr u 0 k td ops ops' hk hne ((WTList_iff _ _ _).mpr hws) ((WTList_iff _ _ _).mpr hws')
+            hok hrel
         rcases hblk with ⟨rfl, hall, rfl⟩ | ⟨_, rfl⟩
         · have hall' : ∀ o ∈ ops', o.isIdentity = true := by simpa using hall
           have hsq := all_identity_square ops' hall'
